@@ -379,3 +379,321 @@ Proof.
       inversion H; subst. clear H.
       apply pp_parse_pos; auto; unfold min64, max64 in *; lia.
 Qed.
+
+(* ------------------------------------------------------------------ *)
+(* ranges of the pieces used by the scanner                            *)
+
+Lemma pi_range kmin dp w lo hi v r : kmin < 0 -> parse_int kmin dp w lo hi = Some (v, r) ->
+  lo <= v <= hi /\ kmin <= v <= - (kmin + 1) /\ (length r <= length dp)%nat.
+Proof.
+  intros Hk H. apply parse_int_sound_lemma in H; auto.
+  destruct H as (cs & -> & _ & H1 & H2 & _). rewrite app_length. repeat split; lia.
+Qed.
+
+Lemma pi32_range dp w lo hi v r : parse_int32 dp w lo hi = Some (v, r) ->
+  lo <= v <= hi /\ (length r <= length dp)%nat.
+Proof. intros H. apply pi_range in H; [tauto|reflexivity]. Qed.
+
+Lemma pi64_range dp w lo hi v r : parse_int64 dp w lo hi = Some (v, r) ->
+  lo <= v <= hi /\ int64 v /\ (length r <= length dp)%nat.
+Proof. intros H. apply pi_range in H; [|reflexivity]. unfold int64, min64, max64 in *. repeat split; lia. Qed.
+
+Ltac rng_norm :=
+  cbv [rng nthZ nth src_parse_off_hh src_parse_off_mm src_parse_range_m src_parse_range_d src_parse_range_H
+       src_parse_range_M src_parse_range_S src_parse_range_UW src_parse_range_u src_parse_range_w
+       src_parse_range_E4Y] in *.
+
+Lemma fpo_range dp sep o r : fmt_parse_offset dp sep = Some (o, r) -> -86399 <= o <= 86399.
+Proof.
+  unfold fmt_parse_offset. destruct dp as [|first d1]; [discriminate|].
+  destruct ((first =? 43) || (first =? 45)).
+  - destruct (parse_int32 d1 2 _ _) as [[hours ap]|] eqn:Eh; [|discriminate].
+    destruct (consumed2 d1 ap); [|discriminate].
+    apply pi32_range in Eh. destruct Eh as [Eh _]. rng_norm.
+    match goal with |- context [parse_int32 ?a 2 0 59] => destruct (parse_int32 a 2 0 59) as [[mi bp]|] eqn:Em end.
+    + apply pi32_range in Em. destruct Em as [Em _].
+      match goal with |- context [consumed2 ?a ?b] => destruct (consumed2 a b) end.
+      * match goal with |- context [parse_int32 ?a 2 0 59] => destruct (parse_int32 a 2 0 59) as [[se cp]|] eqn:Es end.
+        -- apply pi32_range in Es. destruct Es as [Es _].
+           match goal with |- context [consumed2 ?a ?b] => destruct (consumed2 a b) end;
+             intros H; inversion H; subst; destruct (first =? 45); lia.
+        -- intros H; inversion H; subst; destruct (first =? 45); lia.
+      * intros H; inversion H; subst; destruct (first =? 45); lia.
+    + intros H; inversion H; subst; destruct (first =? 45); lia.
+  - destruct ((first =? 90) || (first =? 122)); [|discriminate].
+    intros H; inversion H; lia.
+Qed.
+
+Lemma pp_kExp10 i : 0 <= i <= 18 -> kExp10 i = OK (10 ^ i).
+Proof.
+  intros H.
+  assert (F : forallb (fun i => match kExp10 i with OK v => v =? 10 ^ i | Err _ => false end) (zrange 0 19) = true)
+    by (vm_compute; reflexivity).
+  rewrite forallb_forall in F. specialize (F i). rewrite zrange_In in F.
+  specialize (F ltac:(lia)). destruct (kExp10 i); [|discriminate]. f_equal. lia.
+Qed.
+
+Lemma subsec_loop_inv : forall dp v exp n v' exp' rest n',
+  0 <= exp <= 15 -> 0 <= v < 10 ^ exp ->
+  subsec_loop dp v exp n = (v', exp', rest, n') -> 0 <= exp' <= 15 /\ 0 <= v' < 10 ^ exp'.
+Proof.
+  induction dp as [|c r IH]; intros v exp n v' exp' rest n' He Hv H.
+  - inversion H; subst. auto.
+  - cbn [subsec_loop] in H. destruct (is_digit c) eqn:Ec.
+    + apply is_digit_range in Ec. destruct (exp <? 15) eqn:E15.
+      * apply IH in H; auto; [lia|]. rewrite Z.pow_add_r, Z.pow_1_r by lia. lia.
+      * apply IH in H; auto.
+    + inversion H; subst. auto.
+Qed.
+
+Lemma parse_subseconds_ok dp : exists r, parse_subseconds dp = OK r /\
+  forall sub d, r = Some (sub, d) -> 0 <= sub < 10 ^ 15.
+Proof.
+  unfold parse_subseconds.
+  destruct (subsec_loop dp 0 0 0) as [[[v exp] rest] n] eqn:E.
+  apply subsec_loop_inv in E; [|lia|cbn; lia]. destruct E as [He Hv].
+  destruct (Nat.eqb n 0).
+  - eexists; split; [reflexivity|]. discriminate.
+  - rewrite pp_kExp10 by lia. cbn [bind].
+    assert (HE : 10 ^ exp * 10 ^ (15 - exp) = 10 ^ 15) by (rewrite <- Z.pow_add_r by lia; f_equal; lia).
+    assert (HP : 0 < 10 ^ (15 - exp)) by (apply Z.pow_pos_nonneg; lia).
+    change (10 ^ 15) with 1000000000000000 in *.
+    set (A := 10 ^ exp) in *. set (B := 10 ^ (15 - exp)) in *. clearbody A B.
+    assert (0 <= v * B < 1000000000000000) by nia.
+    unfold mul64. rewrite chk64_in by (unfold int64, min64, max64; lia). cbn [bind].
+    eexists; split; [reflexivity|]. intros sub d Hs. inversion Hs; subst. lia.
+Qed.
+
+(* ------------------------------------------------------------------ *)
+(* the scanner state invariant                                         *)
+
+Ltac fir_tac :=
+  repeat match goal with s : pstate |- _ => destruct s end;
+  repeat match goal with t : tmrec |- _ => destruct t end;
+  unfold fields_in_range', set_tm, set_twelve, set_week, set_offset, set_year, set_subsec, set_percent_s,
+         set_afternoon, tm_with, int64, min64, max64 in *;
+  cbn [ps_year ps_saw_year ps_tm ps_subsec ps_saw_offset ps_offset ps_twelve ps_afternoon ps_week_num
+       ps_week_start ps_saw_s ps_percent_s tm_sec tm_min tm_hour tm_mday tm_mon tm_year tm_wday tm_yday tm_isdst] in *;
+  change (10 ^ 15) with 1000000000000000 in *;
+  rng_norm;
+  repeat match goal with H : _ /\ _ |- _ => destruct H end;
+  repeat split; lia.
+
+Lemma fir_ps0 : fields_in_range' ps0.
+Proof. unfold ps0, tm0. fir_tac. Qed.
+
+Lemma pes_unf data s :
+  parse_ext_seconds data s =
+  match parse_int32 data 2 (rng src_parse_range_S 0) (rng src_parse_range_S 1) with
+  | None => OK None
+  | Some (v, d1) =>
+      match d1 with
+      | x :: d2 =>
+          if x =? 46 then
+            do r <- parse_subseconds d2 ;;
+            match r with
+            | None => OK None
+            | Some (sub, d3) => OK (Some (d3, set_subsec (set_tm s (tm_with (ps_tm s) 0 v)) sub))
+            end
+          else OK (Some (d1, set_tm s (tm_with (ps_tm s) 0 v)))
+      | [] => OK (Some (d1, set_tm s (tm_with (ps_tm s) 0 v)))
+      end
+  end.
+Proof.
+  unfold parse_ext_seconds. destruct (parse_int32 _ _ _ _) as [[v d1]|]; [|reflexivity].
+  destruct d1 as [|x d2]; [reflexivity|].
+  destruct (Z.eqb_spec x 46) as [->|Hn]; [reflexivity|].
+  walk_Z x; try reflexivity. congruence.
+Qed.
+
+Lemma pes_ok data s : exists r, parse_ext_seconds data s = OK r /\
+  forall d' s', r = Some (d', s') -> fields_in_range' s -> fields_in_range' s'.
+Proof.
+  rewrite pes_unf.
+  destruct (parse_int32 _ _ _ _) as [[v d1]|] eqn:E.
+  2:{ eexists; split; [reflexivity|]. discriminate. }
+  apply pi32_range in E. destruct E as [E _].
+  assert (Hs1 : fields_in_range' s -> fields_in_range' (set_tm s (tm_with (ps_tm s) 0 v))).
+  { intros Hf. fir_tac. }
+  destruct d1 as [|x d2].
+  { eexists; split; [reflexivity|]. intros d' s' H. inversion H; subst. auto. }
+  destruct (x =? 46).
+  - destruct (parse_subseconds_ok d2) as (r & -> & Hr). cbn [bind].
+    destruct r as [[sub d3]|].
+    + eexists; split; [reflexivity|]. intros d' s' H Hf. inversion H; subst.
+      specialize (Hr _ _ eq_refl). specialize (Hs1 Hf). clear Hf E. fir_tac.
+    + eexists; split; [reflexivity|]. discriminate.
+  - eexists; split; [reflexivity|]. intros d' s' H. inversion H; subst. auto.
+Qed.
+
+Lemma pef_ok data s : exists r, parse_ext_frac data s = OK r /\
+  forall d' s', r = Some (d', s') -> fields_in_range' s -> fields_in_range' s'.
+Proof.
+  unfold parse_ext_frac. destruct data as [|c d].
+  { eexists; split; [reflexivity|]. intros d' s' H. inversion H; subst. auto. }
+  destruct (is_digit c).
+  - destruct (parse_subseconds_ok (c :: d)) as (r & -> & Hr). cbn [bind].
+    destruct r as [[sub d3]|].
+    + eexists; split; [reflexivity|]. intros d' s' H Hf. inversion H; subst.
+      specialize (Hr _ _ eq_refl). fir_tac.
+    + eexists; split; [reflexivity|]. discriminate.
+  - eexists; split; [reflexivity|]. intros d' s' H. inversion H; subst. auto.
+Qed.
+
+Lemma skip_space_len l : (length (skip_space l) <= length l)%nat.
+Proof.
+  induction l as [|c r IH]; [cbn; lia|]. cbn [skip_space]. destruct (is_space c); cbn [length]; lia.
+Qed.
+
+(* ------------------------------------------------------------------ *)
+(* one scanner step                                                    *)
+
+Section Scan.
+Variable so : list Z -> list Z -> tmrec -> option (list Z * tmrec).
+
+Definition good (fmt : list Z) (s : pstate) (out : res (list Z * option (list Z * pstate))) : Prop :=
+  exists fmt' r, out = OK (fmt', r) /\
+    forall d' s', r = Some (d', s') ->
+      (length fmt' < length fmt)%nat /\ (no_strptime' so -> fields_in_range' s -> fields_in_range' s').
+
+Lemma good_none fmt s f : good fmt s (OK (f, None)).
+Proof. exists f, None. split; [reflexivity|]. discriminate. Qed.
+
+Lemma good_some fmt s f d s' : (length f < length fmt)%nat ->
+  (fields_in_range' s -> fields_in_range' s') -> good fmt s (OK (f, Some (d, s'))).
+Proof.
+  intros Hl Hf. exists f, (Some (d, s')). split; [reflexivity|].
+  intros d' s'' H. inversion H; subst. auto.
+Qed.
+
+Lemma good_strp fmt s fr spec data s1 : (length fr < length fmt)%nat ->
+  good fmt s (OK (fr, parse_tm_spec so spec data s1)).
+Proof.
+  intros Hl. eexists _, _. split; [reflexivity|]. intros d' s' H. split; [auto|].
+  intros Hno. unfold parse_tm_spec in H. rewrite Hno in H. discriminate.
+Qed.
+
+Lemma good_pes fmt s f data : (length f < length fmt)%nat ->
+  good fmt s (do r <- parse_ext_seconds data s ;; OK (f, r)).
+Proof.
+  intros Hl. destruct (pes_ok data s) as (r & -> & Hr). cbn [bind].
+  eexists _, _. split; [reflexivity|]. intros d' s' H. split; eauto.
+Qed.
+
+Lemma good_pef fmt s f data : (length f < length fmt)%nat ->
+  good fmt s (do r <- parse_ext_frac data s ;; OK (f, r)).
+Proof.
+  intros Hl. destruct (pef_ok data s) as (r & -> & Hr). cbn [bind].
+  eexists _, _. split; [reflexivity|]. intros d' s' H. split; eauto.
+Qed.
+
+Ltac len_tac := cbn [length] in *; lia.
+Ltac fin := first
+  [ apply good_none
+  | apply good_strp; len_tac
+  | apply good_pes; len_tac
+  | apply good_pef; len_tac
+  | apply good_some; [len_tac | solve [auto]] ].
+
+(* a match on the result of ParseInt / ParseOffset *)
+Ltac pi_tac :=
+  match goal with
+  | |- good _ _ (match ?e with Some _ => _ | None => _ end) =>
+      let E := fresh "E" in
+      destruct e as [[? ?]|] eqn:E; [|apply good_none];
+      first [apply pi32_range in E | apply pi64_range in E | apply fpo_range in E]
+  end.
+Ltac pi_fin := pi_tac; apply good_some; [len_tac | intros Hf; fir_tac].
+
+Ltac e4y := pi_tac; destruct (Nat.eqb _ _); [|fin]; apply good_some; [len_tac | intros Hf; fir_tac].
+
+Lemma scan_step_good fmt data s : fmt <> [] -> good fmt s (scan_step so fmt data s).
+Proof.
+  destruct fmt as [|f0 f1]; [congruence|]. intros _. unfold scan_step.
+  destruct (is_space f0).
+  { apply good_some; [|auto]. pose proof (skip_space_len f1). len_tac. }
+  destruct (negb (f0 =? 37)).
+  { destruct data as [|c d1]; [fin|]. destruct (c =? f0); fin. }
+  destruct f1 as [|c f2]; [fin|]. cbv zeta.
+  match goal with |- context [if c =? 69 then ?X else _] => set (EB := X) end.
+  destruct (c =? 89). { clear EB. pi_fin. }
+  destruct (c =? 109). { clear EB. pi_fin. }
+  destruct ((c =? 100) || (c =? 101)). { clear EB. pi_fin. }
+  destruct (c =? 85). { clear EB. pi_fin. }
+  destruct (c =? 87). { clear EB. pi_fin. }
+  destruct (c =? 117). { clear EB. pi_fin. }
+  destruct (c =? 119). { clear EB. pi_fin. }
+  destruct (c =? 72). { clear EB. pi_fin. }
+  destruct (c =? 77). { clear EB. pi_fin. }
+  destruct (c =? 83). { clear EB. pi_fin. }
+  destruct ((c =? 73) || (c =? 108) || (c =? 114)). { clear EB. fin. }
+  destruct ((c =? 82) || (c =? 84) || (c =? 99) || (c =? 88)). { clear EB. fin. }
+  destruct (c =? 122). { clear EB. pi_fin. }
+  destruct (c =? 90).
+  { clear EB. destruct (span_while _ data) as [zn d1]. destruct zn; fin. }
+  destruct (c =? 115). { clear EB. pi_fin. }
+  destruct (c =? 58).
+  { clear EB. match goal with |- good _ _ (match ?m with Some _ => _ | None => _ end) =>
+      assert (Hm : forall fr, m = Some fr -> (length fr < length f2)%nat);
+      [|destruct m as [fr|]; [specialize (Hm fr eq_refl)|]]
+    end.
+    - clear. intros fr. destruct f2 as [|x1 f3]; [discriminate|].
+      walk_Z x1; try discriminate; [intros H; inversion H; len_tac|].
+      destruct f3 as [|x2 f4]; [discriminate|].
+      walk_Z x2; try discriminate; [intros H; inversion H; len_tac|].
+      destruct f4 as [|x3 f5]; [discriminate|].
+      walk_Z x3; try discriminate. intros H; inversion H; len_tac.
+    - pi_fin.
+    - fin. }
+  destruct (c =? 37).
+  { clear EB. destruct data as [|x d1]; [fin|]. walk_Z x; fin. }
+  destruct (c =? 69).
+  { subst EB. destruct f2 as [|d f3]; [fin|].
+    match goal with |- good _ _ (match d with Z0 => ?D | Zpos _ => _ | Zneg _ => _ end) => remember D as DD eqn:HD end.
+    assert (HG : good (f0 :: c :: d :: f3) s DD).
+    { subst DD. destruct (is_digit d); [|fin].
+      destruct (parse_int32 (d :: f3) 0 0 1024) as [[v l]|] eqn:E; [|fin].
+      apply pi32_range in E. destruct E as [_ E].
+      destruct l as [|z f5]; [fin|]. walk_Z z; fin. }
+    clear HD.
+    walk_Z d; try exact HG;
+    first
+    [ solve [pi_fin]
+    | solve [destruct data as [|x d1]; [fin|]; destruct ((x =? 84) || (x =? 116)); fin]
+    | destruct f3 as [|e f4]; [exact HG|]; walk_Z e; try exact HG; first [fin | solve [pi_fin] | e4y] ]. }
+  clear EB. destruct (c =? 79).
+  { apply good_strp. destruct f2; len_tac. }
+  fin.
+Qed.
+
+Lemma scan_loop_good : forall fuel fmt data s, (length fmt < fuel)%nat ->
+  exists r, scan_loop so fuel fmt data s = OK r /\
+    (no_strptime' so -> fields_in_range' s -> forall rest s', r = Some (rest, s') -> fields_in_range' s').
+Proof.
+  induction fuel as [|f IH]; intros fmt data s Hl; [lia|].
+  destruct fmt as [|f0 f1].
+  - cbn [scan_loop]. eexists; split; [reflexivity|]. intros _ Hf rest s' H. inversion H; subst; auto.
+  - destruct (scan_step_good (f0 :: f1) data s ltac:(discriminate)) as (fmt' & r & Hs & Hr).
+    cbn [scan_loop]. rewrite Hs. cbn [bind]. destruct r as [[d' s']|].
+    + destruct (Hr _ _ eq_refl) as [Hlen Hfir].
+      destruct (IH fmt' d' s' ltac:(lia)) as (r' & -> & Hr').
+      eexists; split; [reflexivity|]. intros Hno Hf. apply Hr'; auto.
+    + eexists; split; [reflexivity|]. discriminate.
+Qed.
+End Scan.
+
+Theorem scan_safe_lemma : forall strptime_o fmt data,
+  exists r, scan_loop strptime_o (S (length fmt)) fmt data ps0 = OK r.
+Proof.
+  intros so fmt data. destruct (scan_loop_good so (S (length fmt)) fmt data ps0 ltac:(lia)) as (r & H & _).
+  eauto.
+Qed.
+
+Theorem scan_range_lemma : forall strptime_o fmt data rest s,
+  no_strptime' strptime_o ->
+  scan_loop strptime_o (S (length fmt)) fmt data ps0 = OK (Some (rest, s)) -> fields_in_range' s.
+Proof.
+  intros so fmt data rest s Hno H.
+  destruct (scan_loop_good so (S (length fmt)) fmt data ps0 ltac:(lia)) as (r & Hr & Hf).
+  rewrite Hr in H. inversion H; subst. eapply Hf; eauto. apply fir_ps0.
+Qed.
